@@ -24,13 +24,15 @@ def gen_cases(tier, seed):
     for i in range(6000 if q else 60000):
         prof = "normal" if i % 25 else ("many" if i % 50 else "big")
         yield "tx", {"seed": rng.getrandbits(48), "profile": prof, "segwit": [True, False][i % 2]}
+    for i in range(40 if q else 400):
+        yield "tx_nullprev", {"seed": rng.getrandbits(48), "segwit": i % 4 != 3, "n_in": 1 if i % 3 else 2, "vout": [0xFFFFFFFF, 0xFFFFFFFF, 0][i % 3]}
     for i in range(1500 if q else 15000):
         yield "block", {"seed": rng.getrandbits(48), "n": 1 + i % 5, "dup": i % 4 == 0}
 
 
 def required(tier):
     return {"tx.decided": 5000, "tx.class.segwit+seq-nonfinal": 100, "trailing.one-byte-inside": 500,
-            "trailing.copy-of-tx": 500, "block.tx_decided": 400, "block.with_duplicate": 30,
+            "trailing.copy-of-tx": 500, "block.tx_decided": 400, "block.with_duplicate": 30, "tx.class.null_prevout": 30,
             "contract:tx_deser.ids": 500}
 
 
@@ -86,6 +88,22 @@ def _check_ids(ctx, t, raw, trailing_cls, X, where="alone"):
 def run_case(kind, params, ctx):
     import bits.blockchain as bc
     _selfcheck(ctx)
+    if kind == "tx_nullprev":
+        rng = rng_for("C04n", params["seed"])
+        t = txgen.gen_tx(rng, "normal", params["segwit"])
+        t["vin"] = t["vin"][:params["n_in"]] if len(t["vin"]) >= params["n_in"] else t["vin"]
+        t["vin"][0]["txid"] = "00" * 32
+        t["vin"][0]["vout"] = params["vout"]
+        if t.get("witness") is not None:
+            t["witness"] = t["witness"][:len(t["vin"])]
+            if all(len(st) == 0 for st in t["witness"]):
+                t["witness"][0] = ["00" * 32]
+        raw = txref.ser_tx(t)
+        ctx.count("tx.class.null_prevout")
+        for cls, X in txgen.trailing_variants(rng, raw)[:4]:
+            _check_ids(ctx, t, raw, cls, X)
+        ctx.nontrivial()
+        return
     if kind in ("tx", "corpus"):
         if kind == "corpus":
             raw = bytes.fromhex(txgen.FIXED_CORPUS[params["name"]])
